@@ -358,6 +358,9 @@ fn plain_cases(tier: Tier) -> Vec<Case> {
 /// that stays open and never yields, so `create_loop_on_stream` serves the mailbox.
 fn cases(tier: Tier) -> Vec<Case> {
     let mut v = plain_cases(tier);
+    // an accepted stop terminates the actor also when it is attached to a stream that is ready
+    // every time the loop looks (set-valued oracle, see props/c13.rs)
+    v.extend(crate::props::c13::fair_cases("C04"));
     let s = crate::progscene::with_stream_variant(|| plain_cases(tier));
     v.extend(s.into_iter().enumerate().filter(|(i, c)| (tier == Tier::Thorough || i % 3 == 0)).map(|(_, mut c)| {
         // the attached stream is never ready, so the loop's select! tie-break cannot change anything:
@@ -389,7 +392,7 @@ pub fn property() -> Property {
     Property {
         id: "C04",
         cases,
-        clauses: &["drain-before-stop", "barrier-after-stop", "announce-after-stopped", "verdict-on-failure", "verdict-on-graceful"],
+        clauses: &["mailbox-gets-its-turn", "drain-before-stop", "barrier-after-stop", "announce-after-stopped", "verdict-on-failure", "verdict-on-graceful"],
         full_rerun_check: true,
         assumptions: &["a stop request counts as issued at the begin of the client operation that carries it, and as accepted when that operation (or Context::stop inside the handler) returned Ok"],
     }
